@@ -4,6 +4,7 @@ package main
 
 import (
 	"fmt"
+	"reflect"
 	"net/netip"
 	"sort"
 	"strings"
@@ -392,7 +393,12 @@ func (w *world) opUpdateService() bool {
 	svc.ResourceVersion = ""
 	w.opSeq++
 	key := svc.Namespace + "/" + svc.Name
-	w.changedAt[key] = w.opSeq
+	if before := w.getSvc(key); before != nil {
+		before.ResourceVersion = ""
+		if !reflect.DeepEqual(before, svc) {
+			w.changedAt[key] = w.opSeq // (an update that changes nothing produces no event)
+		}
+	}
 	if old := w.getSvc(key); old != nil && specalloc.SharingKey(old) != "" && len(statusAddrs(old)) > 0 {
 		now := map[string]bool{}
 		for _, p := range svc.Spec.Ports {
